@@ -128,10 +128,10 @@ CHECKS = {
     ),
     "C01": dict(
         category="proof",
-        text="Half-cell bound for ALL lattice placements: for any origin, spacing h > 0, centre c and threshold q, the cell centres with (x-c)^2 < q form a run whose mean differs from c by strictly less than h/2 (lattice_run_mean); summed over the fibres of a ball along one axis (every fibre is such a run with its own q = R^2 - rest) the centre of mass of all covered cells lies within half a cell of c along that axis - any dimension, anisotropic spacing (lattice_fibres_com, lattice_com_within_half_cell); on radial grids the located radius m dr is within dr/2 of R (C01_radial) and the sphere of that radius has exactly the volume of the covered shells (shells_telescope with the regenerated volume formula vanishing at 0). ONE DROPLET END TO END IN THE MODEL: the cells a droplet covers (C03's exact rendering `inside`, periodic differences included) form one component of the grid's topology for every grid, centre (inside or outside the box) and radius (ball_connected, by a descent along face steps that never increase the distance: Lemmas/BallConn), hence rendering -> labelling -> periodic merging puts all covered cells into one cluster (single_droplet_one_cluster) and the pipeline the driver executes returns a list with exactly one entry whose volume is the number of covered cells (locateMask_single). POSITION: for a resolved droplet (periodic axes: 2(R+dx) <= L; other axes: sphere inside the box) the wrap counts of the periodic differences are a consistent lift of its component (ballLift_consistent), so by C02's position theorem the stored position in grid coordinates is centre + mean of the periodic offsets of the covered cell centres + whole periods, with NO period along non-periodic axes (single_droplet_position, off_zero_along); the cells of every grid line are all points of an arithmetic progression inside a ball (fibre_mean, via progression_mean and the half-cell lemma, with an explicit bijection to the integer run also across the periodic boundary), summed over the grid lines (ball_offset_mean): the position differs from the centre by LESS THAN HALF A CELL along every axis (single_droplet_within_half_cell) - any dimension, anisotropic spacing, any periodicity mask, centre inside or outside the box. The model pipeline (exact rational inside -> raster labelling -> merge loop) is run against the real get_phasefield -> locate_droplets; predicates: count, exact volume, half-spacing bound per axis under the periodic metric, position inside the box, on Cartesian 1-3-D (all periodicities, anisotropic, offsets, straddling droplets), polar/spherical (centred) and cylindrical (on-axis) grids; exhaustive lattice offsets in the thorough tier. Exposed D2 (fixed in /repo a0c22cd).",
-        note="Trusted: Lean kernel; propext/Classical.choice/Quot.sound; the one-droplet statement (count, volume, position) is proved end to end for the model pipeline; several droplets: if their rendered cells are disjoint and not face-adjacent (hypothesis Separated, in terms of the rendered cells) the clusters are exactly the droplets (emulsion_components, emulsion_one_cluster_each) - volume/position per cluster and the overlap filter are then as for one droplet but not restated; that the separation stated in physical units implies Separated is not proved; 'well-separated' is made explicit by the generator's margins (the theorem that the stated separation prevents adjacency/overlap of located spheres is not proved); float evaluation of centre of mass / from_volume compared to 1e-12 / 1e-9.",
-        technique="Lean 4 theorems (one-droplet pipeline theorem, lattice half-cell lemma, telescoping) + model-pipeline correspondence + independent-metric predicates",
-        ref="DESIGN.md §5 C01",
+        text="THE PROPERTY IS PROVED FOR THE MODEL PIPELINE FROM PHYSICAL HYPOTHESES ONLY (C01_emulsion_model): any number of droplets on any well-formed Cartesian grid (any dimension >= 1, anisotropic spacing, any periodicity mask, centres inside or outside the box) whose centres are pairwise at least R_i + R_j + h apart under the grid's periodic metric (h >= every cell size: 'well-separated') and which are resolved (periodic axes: 2(R+dx) <= L; other axes: sphere inside the box) - then for every droplet that covers a cell centre the pipeline rendering -> labelling -> periodic merging forms ONE cluster consisting of exactly the cells the droplet covers, its volume is the number of covered cells (x cell volume) and its position in grid coordinates lies within HALF A CELL of the droplet's centre along every axis, up to whole periods along periodic axes only. Ingredients, all kernel-checked: the covered cells are one component of the grid's topology for every grid/centre/radius (ball_connected: descent along face steps that never increase the distance, unique nearest cell per axis also across periodic boundaries - Lemmas/BallConn); distant centres => no shared and no face-adjacent covered cells (separated_of_distance: minimal periodic representative + Minkowski in squared form); components of the union image = droplets (emulsion_components) => clusters by C02's locateMask_topology; the wrap counts of the periodic differences are a consistent lift (comp_lift_consistent) => C02's position theorem gives centre + mean periodic offset + whole periods, none along non-periodic axes (off_zero_along); the cells of every grid line are all points of an arithmetic progression inside a ball, in explicit bijection with an integer run also across the periodic boundary (fibre_mean, progression_mean, lattice_run_mean) summed over the grid lines (ball_offset_mean). For one droplet the EXECUTED function returns a list with exactly one entry carrying the number of covered cells (locateMask_single). The image is what rendering and thresholding at the midpoint produce (threshold_of_render_is_ball, C03). Radial grids: the located radius m dr is within dr/2 of R (C01_radial) and the sphere of that radius has exactly the volume of the covered shells (shells_telescope). The model pipeline (exact rational inside -> verified labeller -> merge loop, all inside Lean up to 600 cells) is run against the real get_phasefield -> locate_droplets; predicates: count, exact volume, half-spacing bound per axis under an independent periodic metric, position inside the box, on Cartesian 1-3-D (all periodicities, anisotropic, offsets, straddling and corner droplets on grids with unequal cell counts), polar/spherical (centred) and cylindrical (on-axis) grids; exhaustive lattice offsets in the thorough tier. Exposed D2 (fixed in /repo a0c22cd).",
+        note="Trusted: Lean kernel; propext/Classical.choice/Quot.sound; the correspondence model pipeline <-> real code (scipy labelling/centre of mass, grid.transform/normalize_point, from_volume at Float: 1e-12 / 1e-9). NOT proved: that the overlap filter keeps every cluster (it compares equal-volume spheres: needs cube roots; checked on the implementation) and the volume -> radius conversion (C12's theorems); cylindrical grids are checked on the implementation (model: C09 dispatch + C02 periodic-cylinder stream).",
+        technique="Lean 4 theorems (end-to-end emulsion theorem for the model pipeline, radial lemmas) + model-pipeline correspondence + independent-metric predicates",
+        ref="DESIGN.md §0.2a, §5 C01",
     ),
     "C09": dict(
         category="proof",
